@@ -263,8 +263,8 @@ static void run(Tape &t, Ctx &c, bool small)
             break;
         }
         case 3: {   // receive something
-            int kind = int(t.u(small ? 2 : 5));
-            static const char *names[] = { "message", "nonza", "presence", "iq-result", "ack-like-nonza" };
+            int kind = int(t.u(small ? 2 : 6));
+            static const char *names[] = { "message", "nonza", "presence", "iq-result", "ack-like-nonza", "iq-result-answering-own-request" };
             w.history += std::string(" recv(") + names[kind] + ")";
             switch (kind) {
             case 0: cl.injectXml(QStringLiteral("<message from='bob@example.org/desk' type='chat'><body>yo</body></message>")); w.received++; break;
@@ -272,6 +272,26 @@ static void run(Tape &t, Ctx &c, bool small)
             case 2: cl.injectXml(QStringLiteral("<presence from='bob@example.org/desk'/>")); w.received++; break;
             case 3: cl.injectXml(QStringLiteral("<iq type='result' id='nobody-asked' from='bob@example.org/desk'/>")); w.received++; break;
             case 4: cl.injectXml(QStringLiteral("<enabled xmlns='urn:xmpp:sm:3' id='late'/>")); break;
+            case 5: {
+                // the answer to a request the client is tracking takes another path through the dispatcher (the IQ manager
+                // claims it), and is a received stanza like any other
+                QXmppIq req(QXmppIq::Get);
+                const QString id = QStringLiteral("q%1").arg(++w.nextId);
+                req.setId(id);
+                req.setTo(QStringLiteral("bob@example.org/desk"));
+                cl.sendIq(std::move(req));
+                if (w.smActive) {
+                    auto s = std::make_shared<Sent>();
+                    s->id = id;
+                    s->queued = true;
+                    s->seq = ++w.outSeq;
+                    w.queue.push_back(s);   // not tracked in w.all: sendIq() reports the answer, not the delivery
+                }
+                cl.injectXml(QStringLiteral("<iq type='%1' id='%2' from='bob@example.org/desk'>%3</iq>")
+                                 .arg(t.b() ? QStringLiteral("result") : QStringLiteral("error"), id, QStringLiteral("<error type='cancel'><item-not-found xmlns='urn:ietf:params:xml:ns:xmpp-stanzas'/></error>")));
+                w.received++;
+                break;
+            }
             }
             break;
         }
